@@ -137,20 +137,29 @@ def graph(nxt: List[int], maxr: int, follow: bool) -> bool:
 
 # ---- the same walk through the REAL _get_single (scripted connections, TOFU on) ---------------
 RN = 3
-RURLS = ["gemini://a.example/0", "gemini://a.example:1965/1", "gemini://B.example/2"]
+_RURLS = ["gemini://a.example/0", "gemini://a.example:1965/1", "gemini://B.example/2"]
 
 
-def graph_real(n0: int, n1: int, n2: int, maxr: int) -> bool:
+ALT2 = "gemini://a.example:7000/2"
+
+
+def graph_real(n0: int, n1: int, n2: int, maxr: int, alt: int) -> bool:
     """
     pre: -1 <= n0 < RN and -1 <= n1 < RN and -1 <= n2 < RN
-    pre: 0 <= maxr <= 3
+    pre: 0 <= maxr <= 3 and 0 <= alt <= 2
     post: _
     """
-    from vf.clientrun import Env
+    # alt 0: node 2 lives on another host; alt 1: on another PORT of the first host (same certificate presented, no pin
+    # yet); alt 2: ditto, and that port is pinned to a different certificate -- reaching it must fail
+    from vf.clientrun import FPS, Env
+    from nauyaca.security.tofu import CertificateChangedError
     nxt = [n0, n1, n2]
     env = Env(True)
     env.client.max_redirects = maxr
-    hosts = [("a.example", 1965), ("a.example", 1965), ("b.example", 1965)]
+    hosts = [("a.example", 1965), ("a.example", 1965), ("b.example", 1965) if alt == 0 else ("a.example", 7000)]
+    RURLS = [_RURLS[0], _RURLS[1], _RURLS[2] if alt == 0 else ALT2]
+    if alt == 2:
+        env.pin("a.example", 7000, 1)
     for i in range(RN):
         line = (parse_url(RURLS[i]).normalized + "\r\n").encode()
         if nxt[i] < 0:
@@ -180,6 +189,14 @@ def graph_real(n0: int, n1: int, n2: int, maxr: int) -> bool:
     for t in env.conns:
         if t.rx_before_verify != 0:
             return V(False)
+    if alt == 2 and 2 in seen:
+        # the walk arrives at the port pinned to another certificate: refused there, nothing fetched beyond it
+        return V(isinstance(exc, CertificateChangedError) and res is None and len(env.conns) == seen.index(2) + 1
+                 and env.pins().get(("a.example", 7000)) == FPS[1])
+    if alt == 1 and 2 in seen and len(env.conns) > seen.index(2):
+        # first contact with that port: its pin is recorded, whatever was verified for the other port before
+        if env.pins().get(("a.example", 7000)) != FPS[0]:
+            return V(False)
     if expect == "error":
         return V(exc is not None and res is None)
     return V(exc is None and res is not None and res.status == 20 and res.body == "body%d" % expect
@@ -202,8 +219,9 @@ META = {
 }
 
 OBLIGATIONS = [
-    Ob("graph_real", graph_real, quick=300, thorough=900,
-       symbolic="redirect graph over 3 URLs in non-canonical spellings (explicit :1965, upper-case host), max_redirects 0..3; "
+    Ob("graph_real", graph_real, quick=600, thorough=1200,
+       symbolic="redirect graph over 3 URLs in non-canonical spellings (explicit :1965, upper-case host | another port of the first host, "
+                "unpinned or pinned to a different certificate), max_redirects 0..3; "
                 "real _get_single, real client protocol, real TOFU store",
        functions=["GeminiClient.get", "_get_with_redirects", "_get_single", "GeminiClientProtocol", "TOFUDatabase.verify/trust"],
        stubs=["scripted peer connections", "ModelSQL", "MiniLoop"], outside=["more than 3 URLs on this path"]),
